@@ -1,0 +1,37 @@
+//go:build verif
+
+// Contracts of this package for the deductive verifier in /verif (vcgo).
+// Comment-only; compiled only with -tags verif.
+
+package admin
+
+// ---- router construction (C09) ---------------------------------------------------
+// Every route of the admin port - health, ready, metrics, profiling, status and
+// the forwarding interceptor - is registered behind the auth middleware built
+// from the configured verifier (router typestate of pkg/middleware/verif_contracts_router.go).
+
+//@ extern go.uber.org/atomic.NewBool
+//@   ensures[fresh] result != nil
+//@ extern net/http/pprof.Handler
+//@   ensures[nonnil] result != nil
+
+//@ contract NewReverseProxy
+//@   trusted constructor of the admin forwarding proxy
+//@   ensures[fresh] result != nil && fresh(result)
+
+//@ contract NewServer
+//@   serves C09
+//@   requires[fresh-step] gEngine == nil && !gOpenRoute && !gNoRoute && gAuthObj == nil
+//@   requires[env-logger] logger != nil
+//@   ensures[engine] gEngine != nil && result != nil && result.router == gEngine
+//@   ensures[routes-behind-auth] verifier != nil ==> !gOpenRoute
+//@   ensures[router-protected] verifier != nil ==> grpAuth[addr(gEngine.RouterGroup)]
+//@   ensures[configured-verifier] verifier != nil ==> gAuthObj != nil && gAuthObj.verifier == verifier
+//@   ensures[routes] gRoutes >= old(gRoutes) + 14
+
+// Status routes are added after construction, on groups derived from the
+// server's router: they inherit its chain (iface contract in server/status).
+//@ contract (*Server).AddStatus
+//@   serves C09
+//@   requires[env-built] s.router != nil && handler != nil
+//@   ensures[status-behind-auth] old(grpAuth[addr(s.router.RouterGroup)]) && !old(gOpenRoute) ==> !gOpenRoute
